@@ -29,8 +29,11 @@ func (b *packetAccumulator) add(p *Packet) (ps []*Packet) {
 		return
 	}
 
-	// Empty buffer if we detect a discontinuity
-	if hasDiscontinuity(mps, p) {
+	// Empty buffer if we detect a discontinuity, unless it is announced by the first packet of a new payload unit (and
+	// that packet is not a repetition of the previous one): what has been accumulated so far is then a whole unit,
+	// which is flushed below
+	if hasDiscontinuity(mps, p) && !(p.Header.PayloadUnitStartIndicator && p.Header.HasAdaptationField &&
+		p.AdaptationField.DiscontinuityIndicator && !isSameAsPrevious(mps, p)) {
 		// Reset current slice or make new
 		if cap(mps) > 0 {
 			mps = mps[:0]
